@@ -404,16 +404,79 @@ class Interp:
         cur = self.ev(_load(s.target), env)
         val = self.ev(s.value, env)
         op = BINOPS[type(s.op)]
+        aliases = self.holders_of(cur, s.lineno) if isinstance(cur, V) and [a for a in cur.axes if a is not ONE] else None
         if isinstance(cur, list) and isinstance(s.op, ast.Add):
             cur.extend(val)  # in-place list +=
             return
+        def rebind(r):
+            self.assign(s.target, r, env)
+            self.rebind_holders(aliases, cur, r)
+
         for x, y, rev in ((cur, val, False), (val, cur, True)):
             if hasattr(x, "pyvc_binop"):
                 r = x.pyvc_binop(self, type(s.op).__name__, y, rev)
                 if r is not NotImplemented:
-                    self.assign(s.target, r, env)
+                    rebind(r)
                     return
-        self.assign(s.target, self.binop(op, cur, val, s), env)
+        rebind(self.binop(op, cur, val, s))
+
+    def holders_of(self, cur, lineno):
+        """numpy / pandas perform `x op= y` and `x[k] = v` IN PLACE: every other reference to the same array object sees the
+        new values.  Values are immutable here, so such a statement re-binds the target AND every other program-level
+        holder of this very object (variables of any active function, object attributes, dicts, lists).  A holder that
+        cannot be re-bound (a tuple of the program), or an array that is a view of another one, leaves the subset."""
+        import gc
+
+        if getattr(cur, "view_of", None) is not None:
+            raise Undecided(f"in-place operation on a view of another array at line {lineno} (aliasing of views is not modelled)")
+        aliases = []
+        refs = gc.get_referrers(cur)
+        for r in refs:
+            tn = type(r).__name__
+            if tn in ("frame", "cell", "list_iterator", "FrameCols"):
+                continue  # interpreter frames; a DataFrame's own columns (copy-on-write: no write-through)
+            if isinstance(r, (dict, list)):
+                # only holders that belong to the PROGRAM: the variables of an active function (Env.vars), the attributes
+                # of an object (Obj.attrs), or a dict / list that is itself the value of such a variable or attribute --
+                # not the interpreter's own bookkeeping (snapshots of a loop rule, argument lists, registries)
+                if r is not refs and self._is_program_holder(r, refs):
+                    aliases.append(r)
+            elif isinstance(r, tuple):
+                if r and isinstance(r[0], str):
+                    continue  # bookkeeping tuples of the theories (meta = ("quantile", x, ...))
+                # an argument tuple of the interpreter itself is referenced from python frames only; a tuple of the
+                # PROGRAM is held by a variable / attribute / container
+                if any(isinstance(q_, (dict, list, tuple)) or hasattr(q_, "__dict__") and type(q_).__name__ in ("NamedTuple", "Obj") for q_ in gc.get_referrers(r) if type(q_).__name__ not in ("frame", "cell") and q_ is not refs):
+                    raise Undecided(f"in-place operation at line {lineno} on an array that is also held by a tuple")
+        return aliases
+
+    @staticmethod
+    def _is_program_holder(r, skip, depth=0):
+        import gc
+
+        for o in gc.get_referrers(r):
+            if o is skip or type(o).__name__ in ("frame", "cell", "list_iterator"):
+                continue
+            if (isinstance(o, Env) and o.vars is r) or (isinstance(o, Obj) and o.attrs is r):
+                return True  # r is the variable table of an active function / the attribute table of an object
+            if isinstance(o, dict):
+                if (o.get("vars") is r and "parent" in o) or (o.get("attrs") is r and "written" in o):
+                    return True  # (the same, when the instance dictionary is materialised)
+                if depth == 0 and any(v_ is r for v_ in o.values()) and Interp._is_program_holder(o, skip, 1):
+                    return True  # r is a container held by a variable / attribute
+            elif isinstance(o, list) and depth == 0 and Interp._is_program_holder(o, skip, 1):
+                return True
+        return False
+
+    @staticmethod
+    def rebind_holders(aliases, cur, new):
+        for holder in aliases or ():
+            if isinstance(holder, dict):
+                for k_ in [k_ for k_, v_ in holder.items() if v_ is cur]:
+                    holder[k_] = new
+            else:
+                for i_ in [i_ for i_, v_ in enumerate(holder) if v_ is cur]:
+                    holder[i_] = new
 
     def st_FunctionDef(self, s, env):
         q = None
@@ -604,9 +667,11 @@ class Interp:
             elif isinstance(obj, (dict, list)):
                 obj[key] = val
             elif isinstance(obj, V):
+                aliases = self.holders_of(obj, getattr(target, "lineno", "?")) if [a for a in obj.axes if a is not ONE] else None
                 new = self.theories["__setitem__"](self, obj, key, val)
-                # arrays are values here: rebind every alias reachable through the target expression
+                # arrays are values here: the item assignment re-binds the target and every other holder of the array
                 self.assign(target.value, new, env)
+                self.rebind_holders(aliases, obj, new)
             elif hasattr(obj, "pyvc_setitem"):
                 obj.pyvc_setitem(self, key, val)
             else:
